@@ -275,7 +275,7 @@ def _usertype_of_string(w, k):
 
 
 # type strings whose flattening is known to be missing (genuine defect, reported; see r2_listlike)
-PENDING_DEFECT_TYPES = ("Attachments",)
+PENDING_DEFECT_TYPES = ()   # the Attachments defect was repaired in /repo (fix: b4af27e)
 
 
 def r2_listlike(run, w, ctx):
@@ -373,7 +373,7 @@ def r2_listlike(run, w, ctx):
       continue
     run.ob(R2, sg.qualname, "flattens %r" % k, "a group-by column of this list-like source type "
            "gets the element type in the summary table (its cells hold single elements)",
-           k in flat and flat[k] in nonlist, witness="flattened: %r" % (sorted(flat.items()),),
+           k in flat and flat[k].split(":")[0] in nonlist, witness="flattened: %r" % (sorted(flat.items()),),
            fi=sg.fi)
   run.ob(R2, sg.qualname, "flattened: %s" % ", ".join("%s->%s" % kv for kv in sorted(flat.items())),
          "nothing but list-like source types is rewritten", set(flat) <= set(listlike_strings),
@@ -750,6 +750,11 @@ S = "sandbox/grist/summary.py"
 DM = "sandbox/grist/docmodel.py"
 EN = "sandbox/grist/engine.py"
 VARIANTS = [
+  ("attachments-not-flattened", "sandbox/grist/summary.py", """  elif source_type == 'Attachments':
+    # Attachments is a list of references to _grist_Attachments.
+    return 'Ref:_grist_Attachments'
+""", "", "C12-R2"),
+
   # known realistic breakage (seeded)
   ("auto-removes-single-round", EN,
    "    while self.docmodel.apply_auto_removes():\n      self._bring_all_up_to_date()",
